@@ -17,9 +17,10 @@ CLAIM = dict(
          "is never exhausted), of the PEP 3333 latin-1 dance (lossless on every Unicode scalar-value string), of urllib's quote as "
          "used by iri_to_uri / get_current_url (pure ASCII output; idempotent because '%' is in each of the five safe sets "
          "regenerated from the source), and of _make_unquote_part / uri_to_iri per component (reserved escapes of each component and "
-         "invalid bytes stay quoted; the fixpoint claim is refuted by '%4%41' and proved under a guard; iri_to_uri then uri_to_iri "
-         "is the identity up to the component's reserved characters). Safe sets, protected tables and the statement skeletons are "
-         "regenerated from the source on every run; the models are compared with werkzeug and urllib on ~60k cases per quick run "
+         "invalid bytes stay quoted; the fixpoint claim is refuted by '%4%41' and proved, as a _partial theorem, on the URIs that "
+         "iri_to_uri produces from text without a percent sign; on those, iri_to_uri then uri_to_iri is the identity up to the "
+         "component's reserved characters). Safe sets, protected tables and the statement skeletons are "
+         "regenerated from the source on every run; the models are compared with werkzeug and urllib on ~110k cases per quick run "
          "and the EnvironBuilder -> Request round trip is exercised end to end.",
     note="Trusted: Coq kernel; translator tools/c15.py; extraction + driver; hand-written models of urllib.parse.quote/unquote and of "
          "the UTF-8 decoder's error ranges (validated differentially); urlsplit/urlunsplit, IDNA and the netloc assembly are "
@@ -306,6 +307,16 @@ def _gen_url(rng, uri_like=False):
     return f"{scheme}://{auth}{host}{port}{path}{query}{frag}"
 
 
+def _corpus() -> dict:
+    import json
+    path = os.path.join(os.path.dirname(COQ), "corpus", "C15", "cases.json")
+    try:
+        with open(path, encoding="utf-8") as f:
+            return json.load(f)
+    except (OSError, ValueError):
+        return {}
+
+
 def _call(f, x):
     try:
         return f(x)
@@ -398,7 +409,10 @@ def run(chk: Check) -> None:
     chk.count("urllib.unquote(werkzeug.url_quote)", 12000 * K + 256 * 7)
 
     # ------------------------------------------------ component functions + their laws on the implementation
-    comp_cases: list[tuple[str, str]] = []
+    corpus = _corpus()
+    if not corpus.get("component"):
+        chk.notes.append("corpus/C15/cases.json missing or empty")
+    comp_cases: list[tuple[str, str]] = [(c, v) for c, v in corpus.get("component", []) if c in COMPS]
     for c in COMPS:       # corpus: the probed defect and its relatives, every escaped byte per component
         for s in ["%4%41", "%%34%31", "%4%2541", "%", "%4", "%41", "%2F%2f", "%C3%A9", "%C3%2F%A9", "café%20", "a%25b", "%ff", "100%",
                   "%E2%82%AC%E2%82", "%2", "%%", "%25%34%31", "é%C3", "%C3é"]:
@@ -466,6 +480,7 @@ def run(chk: Check) -> None:
     url_cases = ["http://☃.net/påth?q=èry%DF", "http://xn--n3h.net/p%C3%A5th?q=%C3%A8ry%DF", "http://a/%4%41", "http://a/%%34%31",
                  "http://üser:päss@bücher.example:8080/a b/%2F?x=1&y=%26#fräg%23", "http://[::1]:80/", "itms-services://?action=x&url=https://a/b",
                  "/only/päth?q", "http://a/b%", "http://a?%zz#%4", "//a/b", "http://a/%C3%2F%A9"]
+    url_cases = list(corpus.get("urls", [])) + url_cases
     for _ in range(9000 * K):
         url_cases.append(_gen_url(rng, uri_like=rng.random() < 0.3))
     for url in url_cases:
@@ -546,10 +561,10 @@ def run(chk: Check) -> None:
     chk.count("get_current_url", 2500 * K)
 
     # ------------------------------------------------ DispatcherMiddleware
-    _dispatch(chk, DispatcherMiddleware, add, quick)
+    _dispatch(chk, DispatcherMiddleware, add, quick, corpus)
 
     # ------------------------------------------------ EnvironBuilder -> Request, end to end
-    _e2e(chk, quick)
+    _e2e(chk, quick, corpus)
 
     # ------------------------------------------------ model side
     exe = chk.build_modelrun("C15")
@@ -597,7 +612,7 @@ def run(chk: Check) -> None:
     chk.count("model:mismatches", mism)
 
 
-def _dispatch(chk, DispatcherMiddleware, add, quick) -> None:
+def _dispatch(chk, DispatcherMiddleware, add, quick, corpus) -> None:
     rng = chk.rng
     segs = ["a", "b", "ab", "a.b", "", "c", "Ã©", "x y", "%2F"]
     mount_pool = ["/a", "/a/b", "/a/b/c", "/ab", "", "/", "/a/", "a", "a/b", "//a", "/b", "/a//b", "/c/Ã©", "/a/b/", "//"]
@@ -643,8 +658,8 @@ def _dispatch(chk, DispatcherMiddleware, add, quick) -> None:
                  sample={"op": "dispatch", "mounts": list(mounts), "PATH_INFO": path, "impl": [seen["app"], script, seen["path"]]}
                  if len(mounts) > 2 and seen["app"] else None)
 
-    for mounts, path in [({"/a": 1, "/a/b": 2}, "/a/b/c"), ({"/a": 1}, "/ab"), ({"": 1}, "/x"), ({"/": 1}, "/"), ({"a": 1}, "a/b"),
-                         ({"/a/": 1}, "/a/b"), ({}, "no-slash"), ({"/a": 1}, ""), ({"/a//b": 1, "/a": 2}, "/a//b/c")]:
+    for ms, path in corpus.get("dispatch", []):
+        mounts = {k: 1 for k in ms}
         one(mounts, path, "")
     for _ in range(15000 if quick else 200000):
         mounts = {k: 1 for k in rng.sample(mount_pool, rng.randint(0, 5))}
@@ -667,7 +682,7 @@ def _escape_for_builder(p: str) -> str:
     return "".join(out)
 
 
-def _e2e(chk, quick) -> None:
+def _e2e(chk, quick, corpus) -> None:
     from werkzeug.test import EnvironBuilder
     from werkzeug.wrappers import Request
     from werkzeug.wsgi import get_current_url as wsgi_current_url
@@ -676,9 +691,7 @@ def _e2e(chk, quick) -> None:
     hosts = [("example.com", "example.com"), ("exämple.com", "xn--exmple-cua.com"), ("127.0.0.1", "127.0.0.1"), ("[::1]", "[::1]"),
              ("bücher.example", "xn--bcher-kva.example"), ("localhost", "localhost")]
     text_pool = [p for p in PIECES if not p.startswith("%") or p in ("%", "%4", "%41", "%zz", "%2F", "%25")] + ["\t", "\n", "\x00", "/", "?", "#"]
-    cases = [("/a%41", {}, "http://localhost/"), ("/café €", {"k": "v é&=+#%"}, "http://exämple.com:8080/röot/"),
-             ("/%", {}, "http://localhost/"), ("/a?b#c", {"?": "#"}, "https://[::1]/"), ("/", {}, "http://localhost:80/"),
-             ("/\U0001f600", {"\U0001f600": "€"}, "https://localhost:443/x/")]
+    cases = [(p, q, b) for p, q, b in corpus.get("environ", [])]
     for _ in range(3000 if quick else 40000):
         p = "/" + "".join(rng.choice(text_pool) for _ in range(rng.randint(0, 5)))
         while p.startswith("//"):
